@@ -152,12 +152,13 @@ class LasWriter:
             )
             restore_needed = True
 
-        self.header.grow(points)
-        self.point_writer.write_points(points)
-
-        if restore_needed:
-            points.offsets, points.scales = saved_offsets, saved_scales
-            points.X, points.Y, points.Z = saved_X, saved_Y, saved_Z
+        try:
+            self.header.grow(points)
+            self.point_writer.write_points(points)
+        finally:
+            if restore_needed:
+                points.offsets, points.scales = saved_offsets, saved_scales
+                points.X, points.Y, points.Z = saved_X, saved_Y, saved_Z
 
     def write_evlrs(self, evlrs: VLRList) -> None:
         """Writes the EVLRs to the file
